@@ -163,13 +163,15 @@ func (c24) Gen(seed int64, tier string, emit func(any)) {
 	emit(c24Case{Src: "corpus", Table: [][2]string{{"-a", "-a"}}, Args: []string{"-a"}})                                        // F24b
 	emit(c24Case{Src: "corpus", Table: [][2]string{{"-a", "-b"}, {"-b", "-a"}, {"-c", "bool"}}, Args: []string{"-c", "-b"}})  // F24b, 2-cycle
 	emit(c24Case{Src: "corpus", Allow: true, Table: [][2]string{{"-a", "-b"}, {"-b", "-c"}, {"-c", "str"}}, Args: []string{"-a", "v", "rest"}}) // longest legal chain
-	maxLen := 2
 	nrand := 900
 	if tier == "thorough" {
-		maxLen = 3
-		nrand = 9000
+		nrand = 6000
 	}
 	for ti, tbl := range c24Tables {
+		maxLen := 2
+		if tier == "thorough" && ti < 2 {
+			maxLen = 3
+		}
 		for sw := 0; sw < 8; sw++ {
 			c24Lists(c24Tokens[ti], maxLen, func(args []string) {
 				emit(c24Case{Src: "exh", Allow: sw&1 != 0, Ignore: sw&2 != 0, Strict: sw&4 != 0, Table: tbl, Args: args})
